@@ -305,6 +305,9 @@ class Emulsion(list):
                 this array are modified, it will be reflected in the droplets.
         """
         data = self.data  # create an array with all the droplet data
+        # make sure that single items of the array are instances of `numpy.record`, which
+        # is the type that the droplet classes expect for their `data` attribute
+        data = data.view(np.dtype((np.record, data.dtype)))
         # link back to droplets
         for i, d in enumerate(self):
             d.data = data[i]
